@@ -1,7 +1,7 @@
 """C13 — point containment predicates (structural clauses)."""
 from . import scopes
 from ..core.report import DOMAIN_D
-from ..rules import colliders, frame, degree, affine, unpack, purity, onsegment, misc2, safediv
+from ..rules import colliders, frame, degree, affine, unpack, purity, onsegment, misc2, safediv, partition
 from .common import e2
 
 MODS = {"distance3d.containment_test", "distance3d.utils"}
@@ -14,7 +14,7 @@ def run(idx, rep, tier):
         "reductions only over axis=1 (element-wise over the batch). R-FRAME (engine E2): world points are brought into the "
         "local frame with the inverse pose (row-vector convention) before they are compared with sizes. R-DEGREE (engine "
         "E3): squared distances are compared with squared sizes. R-AXIS: the distinguished axis agrees with the support "
-        "function and the AABB. The 1e-9 band and agreement with point_to_<shape> on concrete points are NOT decided.")
+        "function and the AABB. R-ISOLATED: a case analysis over one scalar (row masks / if-chains against thresholds) does not drop a single threshold value into the fall-through case. The 1e-9 band and agreement with point_to_<shape> on concrete points are NOT decided.")
     rep.assumptions = DOMAIN_D
     colliders.r_closedset(idx, rep)
     colliders.r_axis(idx, rep)
@@ -24,6 +24,7 @@ def run(idx, rep, tier):
     degree.r_degree(idx, rep, modules=sorted(MODS), floor=8)
     purity.r_pureargs(idx, rep, ["distance3d.containment_test", "distance3d.utils"], floor=5)
     onsegment.r_halfsize(idx, rep, ["distance3d.containment_test"] + [x.name for x in idx.lib_modules() if x.name.startswith("distance3d.distance")], floor=3)
+    partition.r_isolated(idx, rep, ["distance3d.containment_test"], floor=0)      # no instance today (the predicates clamp with min/max); armed for rewritten clamps, positive example built in
     misc2.r_dupcond(idx, rep, [m.name for m in idx.lib_modules()], floor=3)
     safediv.r_sqrtdomain(idx, rep, modules=["distance3d.containment_test"], floor=0, unknown_ceiling=2, sqrt_calls=("np.sqrt", "math.sqrt"))
     unpack.r_unpack(idx, rep, floor=1)
